@@ -516,7 +516,9 @@ class _Flattener(object):
         # `g = _generator_helper(..)` ... `for x in g:` with g bound once and used once: creating a generator runs nothing, so the
         # call can be moved to the loop
         if isinstance(st, ast.Assign) and len(st.targets) == 1 and isinstance(st.targets[0], ast.Name) and st.targets[0].id in self.gen_locals \
-                and st.value is self.gen_locals[st.targets[0].id]:
+                and (st.value is self.gen_locals[st.targets[0].id] or (
+                    isinstance(st.value, ast.Call) and isinstance(st.value.func, ast.Name) and st.value.func.id in ("list", "tuple")
+                    and len(st.value.args) == 1 and isinstance(st.value.args[0], ast.Name) and st.value.args[0].id == st.targets[0].id)):
             return []
         if isinstance(st, ast.For) and isinstance(st.iter, ast.Name) and st.iter.id in self.gen_locals:
             st = copy.copy(st)
@@ -587,6 +589,59 @@ def flatten(m, qualname, keep=(), depth=3):
     f2 = copy.copy(fn)
     f2.body = fl.block(copy.deepcopy(fn.body), [fn.name])
     ast.fix_missing_locations(f2)
+    # second stage, only when it can pay: after inlining, a loop may run over a local that holds a generator helper's result
+    # through a switch bound to a constant by the inlined call (`g = _gen(..); if select_first: g = list(g); for x in g:`).  The
+    # constants are propagated and constant `if`s folded (FlatView.dealiased), `g = list(g)` of a generator local is looked
+    # through (materialising first does not change what is done with each item), and the generator is inlined.
+    if _generator_loop_candidates(fl, f2):
+        f3 = FlatView(m, qualname, f2, []).dealiased().fn()
+        f3 = _fold_constant_ifs(copy.deepcopy(f3))
+        cands = _generator_loop_candidates(fl, f3)
+        if cands:
+            fl.gen_locals = cands
+            f4 = copy.copy(f3)
+            f4.body = fl.block(f3.body, [fn.name])
+            ast.fix_missing_locations(f4)
+            if any(n_ in fl.inlined for n_ in {pyc.func.id for pyc in cands.values() if isinstance(pyc.func, ast.Name)}):
+                f2 = f4
     v = FlatView(m, qualname, f2, sorted(set(fl.inlined)))
     _CACHE[key] = v
     return v
+
+
+def _generator_loop_candidates(fl, f):
+    """{local: generator-helper call} for locals of f that are the iterable of exactly one for loop and whose definitions are one
+    call of a private generator helper plus, possibly, re-bindings `g = list(g)` / `g = tuple(g)`"""
+    defs, loads = {}, {}
+    for n in ast.walk(f):
+        if isinstance(n, ast.Assign) and len(n.targets) == 1 and isinstance(n.targets[0], ast.Name):
+            defs.setdefault(n.targets[0].id, []).append(n)
+        elif isinstance(n, ast.Name) and isinstance(n.ctx, ast.Load):
+            loads.setdefault(n.id, []).append(n)
+    out = {}
+    for nm, ds in defs.items():
+        gen = [d for d in ds if isinstance(d.value, ast.Call) and fl.target(d.value, [f.name], generator=True) is not None]
+        wraps = [d for d in ds if isinstance(d.value, ast.Call) and isinstance(d.value.func, ast.Name) and d.value.func.id in ("list", "tuple")
+                 and len(d.value.args) == 1 and isinstance(d.value.args[0], ast.Name) and d.value.args[0].id == nm]
+        if len(gen) != 1 or len(gen) + len(wraps) != len(ds):
+            continue
+        loops = [lp for lp in ast.walk(f) if isinstance(lp, ast.For) and isinstance(lp.iter, ast.Name) and lp.iter.id == nm]
+        other = [x for x in loads.get(nm, []) if not any(x is lp.iter for lp in loops) and not any(x is w.value.args[0] for w in wraps)]
+        if len(loops) == 1 and not other:
+            out[nm] = gen[0].value
+    return out
+
+
+def _fold_constant_ifs(f):
+    class F(ast.NodeTransformer):
+        def visit_If(self, node):
+            self.generic_visit(node)
+            t = node.test
+            if isinstance(t, ast.UnaryOp) and isinstance(t.op, ast.Not) and isinstance(t.operand, ast.Constant):
+                t = ast.Constant(not t.operand.value)
+            if isinstance(t, ast.Constant):
+                return (node.body if t.value else node.orelse) or [ast.copy_location(ast.Pass(), node)]
+            return node
+    f = F().visit(f)
+    ast.fix_missing_locations(f)
+    return f
